@@ -42,7 +42,7 @@ var spec = lib.Spec{
 		"Non-trivial = the two values of the changed attribute serialise to the same byte string when their entries are concatenated without separators (names directly followed by entries, K=V pairs back to back); distinct = (attribute, canonical value A, canonical value B)",
 	Assumptions: []string{
 		"in-process: targets are constructed with core.NewBuildTarget + exported setters exactly as populateTarget does (same order, same conversions); no BUILD file is parsed",
-		"pass_env values are provided through the process environment of the test binary (variables named VERIF_C08_*)",
+		"pass_env values are provided through the process environment of the test binary (variables with one- to four-letter names over {Q,Z}, set only around each hash computation)",
 		"two env dicts that produce the same set of K=V process-environment entries are the same definition ({'a=b':'c'} and {'a':'b=c'} are therefore not a pair)",
 	},
 }
@@ -109,7 +109,7 @@ var attrs = []attrDesc{
 	{name: "hashes", kind: kList, sortedSet: true, words: "ab0"},
 	{name: "env", kind: kMap, words: "ab=", keys: "AB="},
 	{name: "entry_points", kind: kMap, words: "ab=", keys: "cd="},
-	{name: "pass_env", kind: kMap, words: "AB=_", keys: "AB"},
+	{name: "pass_env", kind: kMap, words: "QZ=_", keys: "QZ"},
 	{name: "named_srcs", kind: kNamed, dedupe: true, words: "abc", keys: "ab"},
 	{name: "named_outs", kind: kNamed, sortedSet: true, words: "abc", keys: "ab"},
 	{name: "named_tools", kind: kNamed, words: "ab", keys: "ab"},
@@ -126,7 +126,9 @@ func desc(name string) *attrDesc {
 	return nil
 }
 
-const passEnvPrefix = "VERIF_C08_"
+// pass_env variable names are used as they are (Q, Z, QZ, ...: nothing real is called that), so that a
+// value can contain text that looks like the next NAME=value pair.
+const passEnvPrefix = ""
 
 // ---- canonical semantic form --------------------------------------------------------------------
 
@@ -604,7 +606,7 @@ func key(t *rapid.T, d *attrDesc) string {
 		k = string(d.keys[0]) + k
 	}
 	if d.name == "pass_env" {
-		k = strings.ReplaceAll(k, "=", "A")
+		k = strings.ReplaceAll(k, "=", "Q")
 	}
 	return k
 }
@@ -1019,6 +1021,9 @@ func normaliseNamed(n []KVs) []KVs {
 
 func gen(t *rapid.T) Case {
 	d := &attrs[rapid.IntRange(0, len(attrs)-1).Draw(t, "attr")]
+	if only := os.Getenv("VERIF_C08_ATTR"); only != "" && desc(only) != nil { // development aid: one attribute only
+		d = desc(only)
+	}
 	a := cloneTarget(Target{})
 	a.Bool["text_file"] = d.name == "file_content" || (d.name != "cmd" && rapid.IntRange(0, 5).Draw(t, "text_file") == 0)
 	for i := range attrs {
